@@ -395,6 +395,8 @@ fn visit_t<'a, T: Ty<'a>>(ctx: &Ctx, b: &'a [u8], n: usize, pol: Option<usize>) 
                 o.push(format!("rb={}", oracle::rb(T::NAME, b, n, &res.as_ref().map(|pr| pr.consumed()).map_err(|e| e.clone()), &line)));
             }
             Some(k) => {
+                // the partition holds for every visitor, a breaking one included, whenever the visit succeeds
+                o.push(format!("part={}", oracle::part::<T>(b, &res)));
                 o.push(format!("brk={}", oracle::break_oracle::<T>(b, n, k, &res.as_ref().map(|_| ()).map_err(|e| e.clone()), &rec.evs)));
             }
         }
